@@ -28,6 +28,7 @@ type world struct {
 	typeOf  map[int]types.Type
 	src     map[string][]byte
 	modsets map[*ssa.Function]*modset
+	libFrames map[string]bool
 	overlay map[string][]byte
 }
 
@@ -45,7 +46,7 @@ func loadWorld(patterns []string, overlay map[string][]byte) (*world, error) {
 		return nil, err
 	}
 	w := &world{pkgs: map[string]*packages.Package{}, spkgs: map[string]*ssa.Package{}, allTPkg: map[string]*types.Package{},
-		typeIDs: map[string]int{}, typeOf: map[int]types.Type{}, src: map[string][]byte{}, modsets: map[*ssa.Function]*modset{}, overlay: overlay}
+		typeIDs: map[string]int{}, typeOf: map[int]types.Type{}, src: map[string][]byte{}, modsets: map[*ssa.Function]*modset{}, overlay: overlay, libFrames: map[string]bool{}}
 	if len(pkgs) == 0 {
 		return nil, fmt.Errorf("no packages")
 	}
@@ -104,13 +105,22 @@ func (w *world) loadContracts(trustedDir string) error {
 		paths = append(paths, pp)
 	}
 	sort.Strings(paths)
+	// contract files of every repo package reachable from the loaded ones (callees'
+	// contracts are needed at call sites even when the callee's package is not loaded)
+	paths = paths[:0]
+	for pp := range w.allTPkg {
+		if pp == modPath || strings.HasPrefix(pp, modPath+"/") {
+			paths = append(paths, pp)
+		}
+	}
+	sort.Strings(paths)
 	for _, pp := range paths {
-		p := w.pkgs[pp]
-		for _, f := range p.CompiledGoFiles {
-			if strings.HasPrefix(filepath.Base(f), "verif_contracts") {
-				if err := w.cs.loadContractFile(f, pp); err != nil {
-					return err
-				}
+		dir := filepath.Join(repoDir, strings.TrimPrefix(relPkg(pp), "./"))
+		fs, _ := filepath.Glob(filepath.Join(dir, "verif_contracts*.go"))
+		sort.Strings(fs)
+		for _, f := range fs {
+			if err := w.cs.loadContractFile(f, pp); err != nil {
+				return err
 			}
 		}
 	}
@@ -121,6 +131,7 @@ func (w *world) loadContracts(trustedDir string) error {
 			return err
 		}
 	}
+	w.cs.applyInvariants()
 	return nil
 }
 
